@@ -309,7 +309,7 @@ PROPS = {
         ],
         require={'coalesced-reason': 1000, 'kill-returned-true': 1000, 'two-or-more-atomic-requests-at-one-drain': 1000,
                  'timer-cancelled-by-run-or-kill': 1000, 'restart-after-exit': 1000},
-        assumptions=['scope of the property is built into the generator: one unsatisfied fibre_timeout per dispatch, time within the 2^31 window; the 9th undrained fibre_run_atomic is modelled (must return false)',
+        assumptions=['scope of the property is built into the generator: one unsatisfied fibre_timeout per dispatch, time within the 2^31 window; a fibre_run_atomic is never issued while 8 are undrained (what the 9th returns is outside the scope); acceptance below 8 is asserted',
                      'fibre_kill of the fibre that yielded in the previous pass does not stop its re-queue at the next pass (the statement places that re-queue at the next pass)'],
     ),
     'C02': dict(
